@@ -608,3 +608,6 @@ Proof.
     destruct (Z.ltb_spec u i); [destruct d; cbn [dt_holds bits_le dt_valid narrow_int s_ub s_sb s_fb] in *; lia|].
     destruct (Z.ltb_spec u 64); destruct d; cbn [dt_holds bits_le dt_valid narrow_int s_ub s_sb s_fb] in *; lia.
 Qed.
+
+Lemma ba_extract_dtype_explicit d r f : ba_extract_dtype_opt d (Some r) f = r.
+Proof. reflexivity. Qed.
